@@ -386,8 +386,8 @@ Fixpoint nb_decode_pairs (l : bytes) : option bytes :=
 
 Definition nb_decode (enc : bytes) : option bytes :=
   match enc with
-  | 32 :: r => if Nat.eqb (length r) 33 && (nth 32 r 1 =? 0) then nb_decode_pairs (firstn 32 r) else None
-  | _ => None
+  | c :: r => if (c =? 32) && Nat.eqb (length r) 33 && (nth 32 r 1 =? 0) then nb_decode_pairs (firstn 32 r) else None
+  | [] => None
   end.
 
 (* all unique (G = 0) names of a NODE STATUS array, presented *)
